@@ -23,6 +23,7 @@ import Cerberus.Proofs.Validate
 import Cerberus.Model.Normalize
 import Cerberus.Model.Schema
 import Cerberus.Props.C08
+import Cerberus.Extracted
 namespace Cerberus
 open V
 
@@ -116,5 +117,28 @@ theorem C16_isolation_warm_fails :
     Cache.run [] [.submit .bulk (.dict [(.s "is_odd", .bool true)]) T true,
                   .submit .bulk (.dict [(.s "is_odd", .bool true)]) T false] ≠ [some true, some false] := by
   decide
+
+/-- **the internal types of the schema validator stay internal**: the types of the validator class
+    extracted on this run are the documented ones; `callable` and `hashable` exist in the schema
+    validator's own table only -/
+theorem C16_internal_types :
+    (∀ n, n ∈ Extracted.typeNames ↔
+      n ∈ ["binary", "boolean", "container", "date", "datetime", "dict", "float", "integer", "list", "number", "set", "string"]) ∧
+    "callable" ∉ Extracted.typeNames ∧ "hashable" ∉ Extracted.typeNames ∧
+    (Tables.lookupS Extracted.metaTypeTable "callable").isSome = true ∧
+    (Tables.lookupS Extracted.metaTypeTable "hashable").isSome = true ∧
+    (Tables.lookupS Extracted.typeTable "callable").isSome = false ∧
+    (Tables.lookupS Extracted.typeTable "hashable").isSome = false := by
+  refine ⟨fun n => ?_, by decide, by decide, by decide, by decide, by decide, by decide⟩
+  constructor
+  · intro h
+    have : ∀ m ∈ Extracted.typeNames,
+        m ∈ ["binary", "boolean", "container", "date", "datetime", "dict", "float", "integer", "list", "number", "set", "string"] := by
+      decide
+    exact this n h
+  · intro h
+    have : ∀ m ∈ ["binary", "boolean", "container", "date", "datetime", "dict", "float", "integer", "list", "number", "set", "string"],
+        m ∈ Extracted.typeNames := by decide
+    exact this n h
 
 end Cerberus
